@@ -730,10 +730,21 @@ func c16NewEnvG(seed int64, names []string, grace time.Duration) (*c16Env, error
 				continue
 			default:
 			}
+			// ready = it is fabio that answers there (on a busy machine somebody else may have taken the port)
 			if c, err := net.DialTimeout("tcp", addr, 100*time.Millisecond); err == nil {
 				c.Close()
-				env.paddr, env.served = addr, served
-			} else {
+				cc, err := grpc.NewClient("passthrough:///"+addr, grpc.WithTransportCredentials(insecure.NewCredentials()))
+				if err == nil {
+					ctx, cancel := context.WithTimeout(context.Background(), 2*time.Second)
+					err = cc.Invoke(ctx, "/c16.ready/Probe", &tpb.Empty{}, &tpb.Empty{})
+					cancel()
+					cc.Close()
+					if status.Code(err) == codes.NotFound {
+						env.paddr, env.served = addr, served
+					}
+				}
+			}
+			if env.paddr == "" {
 				time.Sleep(time.Millisecond)
 			}
 		}
@@ -1337,8 +1348,11 @@ func c16ReplaySeq(b *c16Behaviour, seed int64, drive string, stats *c16Stats) (f
 			shaky[st.Be] = true
 			stats.outages++
 		case "up":
-			if err := env.backends[st.Be].upAgain(); err != nil {
-				return nil, nil, fmt.Errorf("backend %s cannot listen on its address again: %v", st.Be, err)
+			if uerr := env.backends[st.Be].upAgain(); uerr != nil {
+				// somebody else took the port while the backend was down: nothing more to learn here
+				verifx.Emit(map[string]any{"kind": "skipped", "why": fmt.Sprintf("backend %s cannot listen on its address again: %v", st.Be, uerr)})
+				stats.degenerate++
+				return
 			}
 		case "burst":
 			// n overlapping first calls for a backend the proxy has no connection to yet
